@@ -202,11 +202,12 @@ class HDF5Dataset(Dataset):
             raise TypeError("The field must be a DataFrame object.")
 
         if dataframe.dataset == self:
-            # rename a dataframe
+            # rename a dataframe; move the group first so that a refused move
+            # (the name is already taken) leaves the dataset as it was
+            self._file.move(dataframe.h5group.name, name)
             del self._dataframes[dataframe.name]
             dataframe.name = name
             self._dataframes[name] = dataframe
-            self._file.move(dataframe.h5group.name, name)
         else:
             # new dataframe from another dataset
             copy(dataframe, self, name)
